@@ -76,8 +76,10 @@ Python objects
 
 Hypothesis strategies
     type_trees(max_depth=3, top_level=True, vectors=True, udts=True, wrappers=True, scalars=SCALARS)
-    value_for(tree, nulls=True, short_tuples=True, max_len=4, key_position=False)
-    typed_values(max_depth=3, **kw)    -> (tree, value) pairs
+    value_for(tree, nulls=True, short_tuples=True, max_len=4, key_position=False, short_udts=False)
+    typed_values(max_depth=3, nulls=True, short_tuples=True, max_len=4, short_udts=False, **type_trees_kw) -> (tree, value)
+    ukey(tree, value)                  hashable identity under Python equality of the built objects
+    features(tree, value, pv=None)     set of boundary-class labels ("int-boundary", "null-inside", ...)
     PROTOCOL_VERSIONS, protocol_versions()
 
 self_test() pins the reference against the fixed vectors of /repo/tests/unit/test_marshalling.py and
@@ -1065,58 +1067,88 @@ def _uniquify_udts(tree):
     return walk(tree)
 
 
+def _pick(options):
+    """uniform choice between strategies, robust against hypothesis' bias towards early branches"""
+    options = list(options)
+    if len(options) == 1:
+        return options[0]
+    return st.integers(0, 2 ** 16 - 1).flatmap(lambda i: options[i % len(options)])
+
+
+def _choice(seq):
+    seq = list(seq)
+    return st.integers(0, 2 ** 16 - 1).map(lambda i: seq[i % len(seq)])
+
+
 def type_trees(max_depth=3, top_level=True, vectors=True, udts=True, wrappers=True, scalars=SCALARS):
-    """Type trees of container depth <= max_depth.  Set elements are orderable(), map keys keyable(),
-    counters only at top level, vectors have dimension >= 1 and non-frozen element types, nested
-    collections are wrapped in frozen<> about half of the time, `reversed` only at top level."""
+    """Type trees of container depth <= max_depth (the depth itself is drawn first, so every depth is well
+    populated).  Set elements are orderable(), map keys keyable(), counters only at top level, vectors have
+    dimension >= 1, nested collections are wrapped in frozen<> about half of the time, `reversed` only at top
+    level.  Trees stay lean: a container has one child of full remaining depth, its other children are
+    scalars or depth-1 containers."""
     scalars = tuple(scalars)
     nested_scalars = tuple(s for s in scalars if s != "counter") or scalars
     key_scalars = tuple(s for s in nested_scalars if s not in ("duration",)) or nested_scalars
-    levels = {}
+    memo = {}
 
     def maybe_frozen(s):
         if not wrappers:
             return s
-        return st.one_of(s, s.map(t_frozen))
+        return _pick([s, s.map(t_frozen)])
+
+    def scalar(mode):
+        return _choice(nested_scalars if mode == "any" else key_scalars).map(T)
 
     def level(d, mode):
-        # mode: "any" | "set" (orderable) | "key" (keyable) | "vec" (vector element)
-        if (d, mode) in levels:
-            return levels[(d, mode)]
-        sc = st.sampled_from(nested_scalars if mode in ("any", "vec") else key_scalars).map(T)
+        """scalar or container of depth <= d"""
         if d <= 0:
-            levels[(d, mode)] = sc
-            return sc
-        sub = level(d - 1, mode if mode != "vec" else "any")
-        opts = [sc, sc]
-        colls = [sub.map(t_list),
-                 level(d - 1, "set").map(t_set),
-                 st.lists(sub, min_size=1, max_size=4).map(t_tuple)]
-        if mode != "set":
-            vsub = sub if mode == "key" else level(d - 1, "any")
-            colls.append(st.builds(t_map, level(d - 1, "key"), vsub))
-        if udts:
-            colls.append(st.builds(
-                t_udt, st.sampled_from(["ks", "ks1"]), st.sampled_from(_UDT_NAMES),
-                st.lists(st.tuples(st.sampled_from(_FIELD_NAMES), sub), min_size=1, max_size=4,
-                         unique_by=lambda p: p[0])))
-        opts.append(maybe_frozen(st.one_of(*colls)) if mode != "vec" else st.one_of(*colls))
-        opts.append(maybe_frozen(st.one_of(*colls)) if mode != "vec" else st.one_of(*colls))
-        if vectors:
-            dims = st.sampled_from([1, 1, 2, 2, 3, 4, 5])
-            opts.append(st.builds(t_vector, level(d - 1, "vec" if mode == "any" else mode), dims))
-        s = st.one_of(*opts)
-        levels[(d, mode)] = s
-        return s
+            return scalar(mode)
+        key = ("L", d, mode)
+        if key not in memo:
+            memo[key] = _pick([scalar(mode), container(d, mode), container(d, mode)])
+        return memo[key]
 
-    body = level(max_depth, "any")
+    def fields(d, mode):
+        """1-4 field types, one of them deep"""
+        deep = level(d - 1, mode)
+        small = level(min(d - 1, 1), mode)
+        return st.builds(lambda dp, rest, pos: rest[:pos % (len(rest) + 1)] + [dp] + rest[pos % (len(rest) + 1):],
+                         deep, st.lists(small, min_size=0, max_size=3), st.integers(0, 3))
+
+    def container(d, mode):
+        # mode: "any" | "set" (orderable) | "key" (keyable)
+        key = ("C", d, mode)
+        if key in memo:
+            return memo[key]
+        deep = level(d - 1, mode)
+        colls = [deep.map(t_list),
+                 level(d - 1, "set").map(t_set),
+                 fields(d, mode).map(t_tuple)]
+        if mode != "set":
+            kmode = "key"
+            colls.append(_pick([st.builds(t_map, level(min(d - 1, 1), kmode), deep),
+                                st.builds(t_map, level(d - 1, kmode), level(min(d - 1, 1), mode))]))
+        if udts:
+            def mk_udt(ks, name, subs, names):
+                return t_udt(ks, name, list(zip(names[:len(subs)], subs)))
+            colls.append(st.builds(mk_udt, st.sampled_from(["ks", "ks1"]), st.sampled_from(_UDT_NAMES), fields(d, mode),
+                                   st.permutations(_FIELD_NAMES)))
+        opts = [maybe_frozen(c) for c in colls]
+        if vectors:
+            opts.append(st.builds(t_vector, deep, st.sampled_from([1, 1, 2, 2, 3, 4, 5])))
+        memo[key] = _pick(opts)
+        return memo[key]
+
+    depths = sorted(set(range(0, max_depth + 1)))
+    weighted = [d for d in depths for _ in range((1, 2, 3, 3, 3, 3, 3)[min(d, 6)])]
+    body = _pick([scalar("any") if d == 0 else container(d, "any") for d in weighted])
     if top_level:
-        tops = [body, body, body]
+        tops = [body] * 6
         if "counter" in scalars:
             tops.append(st.just(T("counter")))
         if wrappers:
             tops.append(body.map(t_reversed))
-        body = st.one_of(*tops)
+        body = _pick(tops)
     return body.map(_uniquify_udts)
 
 
@@ -1145,9 +1177,10 @@ def _scalar_strategy(t):
     if t in _S:
         return _S[t]
     if t in ("text", "varchar"):
-        s = st.one_of(st.sampled_from(_TEXTS), st.text(max_size=12),
+        s = st.one_of(st.sampled_from(_TEXTS), st.text(max_size=12), st.text(max_size=6),
                       st.text(alphabet=st.characters(min_codepoint=0x10000, max_codepoint=0x10FFFF), max_size=4),
-                      st.text(min_size=120, max_size=135))
+                      st.text(alphabet=st.characters(max_codepoint=0x7ff), max_size=8),
+                      st.integers(120, 135).map(lambda n: "q" * n))
     elif t == "ascii":
         s = st.one_of(st.sampled_from(["", "\x00", "a", "\x7f", "lorem ipsum", "z" * 128]),
                       st.text(alphabet=st.characters(max_codepoint=127), max_size=12))
@@ -1264,21 +1297,24 @@ def ukey(tree, v):
     return tuple(ukey(sub, x) for sub, x in zip(subs, v))
 
 
-def value_for(tree, nulls=True, short_tuples=True, max_len=4, key_position=False):
+def value_for(tree, nulls=True, short_tuples=True, max_len=4, key_position=False, short_udts=False, _lvl=0):
     """Strategy of tagged values of `tree` (never a top-level None).  In key positions (set elements,
-    map keys, and everything below them) there are no nulls, no short tuples and no NaN."""
+    map keys, and everything below them) there are no nulls, no short tuples and no NaN.
+    short_udts=True also produces UDT values with trailing fields missing (what Cassandra sends for
+    rows written before an ALTER TYPE ... ADD; a driver cannot *send* those)."""
     t = tree["t"]
     if t in ("frozen", "reversed"):
-        return value_for(tree["of"], nulls, short_tuples, max_len, key_position)
+        return value_for(tree["of"], nulls, short_tuples, max_len, key_position, short_udts, _lvl)
     if t in _SCALAR_SET:
         s = _scalar_strategy(t)
         if key_position and t in ("float", "double"):
             s = s.filter(lambda x: x != "nan")
         return s
-    sizes = st.sampled_from([0, 1, 1, 2, 2, 3, max_len])
+    # element counts shrink with the nesting level so that deep values stay within hypothesis' buffer
+    sizes = st.sampled_from(([0, 1, 1, 2, 2, 3, max_len], [0, 1, 1, 2, 3], [0, 1, 1, 2])[min(_lvl, 2)])
 
     def nullable(sub_tree, key=False):
-        s = value_for(sub_tree, nulls, short_tuples, max_len, key_position or key)
+        s = value_for(sub_tree, nulls, short_tuples, max_len, key_position or key, short_udts, _lvl + 1)
         if nulls and not key_position and not key:
             return st.one_of(s, s, s, s, s, s, s, st.none())
         return s
@@ -1297,12 +1333,12 @@ def value_for(tree, nulls=True, short_tuples=True, max_len=4, key_position=False
         return sizes.flatmap(lambda n: st.lists(st.tuples(k, v).map(list), min_size=0, max_size=n,
                                                 unique_by=lambda p: ukey(kt, p[0])))
     if t == "vector":
-        el = value_for(tree["of"], nulls, short_tuples, max_len, key_position)
+        el = value_for(tree["of"], nulls, short_tuples, max_len, key_position, short_udts, _lvl + 1)
         return st.lists(el, min_size=tree["dim"], max_size=tree["dim"])
     if t in ("tuple", "udt"):
         subs = tree["of"] if t == "tuple" else [f[1] for f in tree["fields"]]
         full = st.tuples(*[nullable(sub) for sub in subs]).map(list)
-        if t == "tuple" and short_tuples and not key_position and len(subs) > 1:
+        if ((t == "tuple" and short_tuples) or (t == "udt" and short_udts)) and not key_position and len(subs) > 1:
             short = st.integers(1, len(subs) - 1).flatmap(
                 lambda n: st.tuples(*[nullable(sub) for sub in subs[:n]]).map(list))
             return st.one_of(full, full, full, full, short)
@@ -1310,10 +1346,11 @@ def value_for(tree, nulls=True, short_tuples=True, max_len=4, key_position=False
     raise ValueError(t)
 
 
-def typed_values(max_depth=3, nulls=True, short_tuples=True, max_len=4, **tree_kw):
+def typed_values(max_depth=3, nulls=True, short_tuples=True, max_len=4, short_udts=False, **tree_kw):
     """strategy of (tree, value) pairs"""
     return type_trees(max_depth, **tree_kw).flatmap(
-        lambda tr: st.tuples(st.just(tr), value_for(tr, nulls=nulls, short_tuples=short_tuples, max_len=max_len)))
+        lambda tr: st.tuples(st.just(tr), value_for(tr, nulls=nulls, short_tuples=short_tuples, max_len=max_len,
+                                                    short_udts=short_udts)))
 
 
 # ---------------------------------------------------------------------------------------------------
@@ -1460,7 +1497,7 @@ _VECTORS = [
     ("3f800000" "40000000", t_vector(T("float"), 2), [1.0, 2.0], 4),
     ("03616263" "00", t_vector(T("text"), 2), ["abc", ""], 4),
     ("01" "7f" "02" "0080", t_vector(T("varint"), 2), [127, 128], 4),
-    ("00000001" "ffffffff", t_tuple([T("int"), T("text")]), [1, None], 4),
+    ("00000004" "00000001" "ffffffff", t_tuple([T("int"), T("text")]), [1, None], 4),
 ]
 
 _UVINTS = [(0, "00"), (1, "01"), (127, "7f"), (128, "8080"), (16383, "bfff"), (16384, "c04000"),
